@@ -617,6 +617,10 @@ def gen_batch(seed, count):
             forced.append((w, be, "signed"))
             forced.append((w, be, "unsigned"))
         forced.append((12, be, "signed"))
+    # the widths at which the accessor type changes, with BOTH signs (the byte order alternates)
+    for k, w in enumerate((8, 16, 32)):
+        forced.append((w, k % 2 == 0, "signed"))
+        forced.append((w, k % 2 == 1, "unsigned"))
     rng.shuffle(forced)
     per = max(1, -(-len(forced) // max(1, count)))
     for i in range(count):
